@@ -275,6 +275,7 @@ func (in *Interp) initPkg(pkg *ssa.Package) {
 	}
 	in.inited[pkg] = true
 	if in.cfg.skipInit(pkg.Pkg.Path()) {
+		in.cfg.note("package %s: init skipped by configuration, its globals keep zero values", pkg.Pkg.Path())
 		return
 	}
 	initFn := pkg.Func("init")
